@@ -7,6 +7,7 @@ import gen
 from common import Outcome, close, rng_for
 
 LEVEL = "proof"
+SHRINK_KEYS = ("stream",)
 EXPLANATION = ("Theorems (Lean, reals): model = non-incremental recurrence for all three kinds, shift invariance, lambda monotonicity, "
                "histories with resets. This run evaluates the recurrences, shifted copies and lambda pairs on the real detectors.")
 ASSUMPTIONS = ["near-ties with the threshold (relative margin 1e-9) are excluded"]
